@@ -232,7 +232,7 @@ func genRequest(c *h.Case, rc *routeCfg, k int, bigBody int64) *genReq {
 	if rng.Intn(12) == 0 {
 		p.Headers = append(p.Headers, [2]string{"X-Large-Resp", bigValue(rng, 4000+rng.Intn(28000))})
 	}
-	if rng.Intn(5) != 0 {
+	if rng.Intn(5) != 0 && p.Status != 304 { // a 304 carries no representation metadata (RFC 9110 15.4.5)
 		p.Headers = append(p.Headers, [2]string{"Content-Type", pick(rng, "application/octet-stream", "text/plain; charset=utf-8", "application/json")})
 	}
 	p.Framing = pick(rng, "cl", "cl", "chunked", "chunked", "close")
@@ -245,8 +245,14 @@ func genRequest(c *h.Case, rc *routeCfg, k int, bigBody int64) *genReq {
 	if p.Status == 204 || p.Status == 304 {
 		p.Size = 0
 	}
+	// early answer: the backend responds on the request head alone (e.g. an upload it rejects or
+	// answers while still receiving) and reads the body afterwards
+	if g.Framing != "none" && g.BodySize > 0 && rng.Intn(6) == 0 {
+		p.Early = true
+		p.DelayMs = 0
+	}
 	g.Plan = p
-	g.PlanDesc = fmt.Sprintf("status=%d framing=%s size=%d class=%d slow=%v delay=%d headers=%d", p.Status, p.Framing, p.Size, p.Class, p.Slow, p.DelayMs, len(p.Headers))
+	g.PlanDesc = fmt.Sprintf("status=%d framing=%s size=%d class=%d slow=%v delay=%d headers=%d early=%v", p.Status, p.Framing, p.Size, p.Class, p.Slow, p.DelayMs, len(p.Headers), p.Early)
 	return g
 }
 
@@ -326,17 +332,23 @@ func judgeRequest(rc *routeCfg, g *genReq, userIP string, sr *seenReq) []verdict
 	if sr.Method != g.Method {
 		bad("req-method-changed", "method sent %q, backend saw %q", g.Method, sr.Method)
 	}
-	if sr.URI != g.Target && !(g.AbsForm && sr.URI == g.Origin) {
+	sawOrigin := sr.URI
+	if g.AbsForm && strings.HasPrefix(sawOrigin, "http://") { // absolute-form may arrive as such (any authority: Host rewrite) or in origin-form
+		if i := strings.IndexByte(sawOrigin[7:], '/'); i >= 0 {
+			sawOrigin = sawOrigin[7+i:]
+		}
+	}
+	if sawOrigin != g.Origin {
 		key := "req-target-changed"
-		si, bi := strings.IndexByte(g.Origin, '?'), strings.IndexByte(sr.URI, '?')
-		sp, bp := g.Origin, sr.URI
+		si, bi := strings.IndexByte(g.Origin, '?'), strings.IndexByte(sawOrigin, '?')
+		sp, bp := g.Origin, sawOrigin
 		if si >= 0 {
 			sp = g.Origin[:si]
 		}
 		if bi >= 0 {
-			bp = sr.URI[:bi]
+			bp = sawOrigin[:bi]
 		}
-		if sp == bp || (g.AbsForm && strings.HasSuffix(bp, sp)) {
+		if sp == bp {
 			key = "req-query-changed"
 			if si >= 0 && strings.Contains(g.Origin[si:], ";") {
 				key = "req-query-semicolon-param-dropped"
